@@ -16,6 +16,11 @@ CB_TRUST = [
     "encoding/xml marshalling of the message, html/template and the redirect URL are not part of this model (C17/C18); the harness decodes replies with an independent token-level parser",
 ]
 
+SLO_TRUST = [
+    "Model.Logout is a hand-written model of logoutHandleFunc and the LogoutResponse builders. Tie 1 (proof): logoutHandleFunc, getLogoutRequestFromRequest, makeFailedLogoutResponse, makeSuccessfulLogoutResponse, makeLogoutResponse and sendBackLogoutResponse are translated by go2lean on every run - the closure literals registered with the checker.Checker become functions of the handler frame (Go.Clo), each checkerInstance.WithXxx call one Go.Step, CheckFailed() is Go.runChain, i.e. Model.Checker's functions on the panic-absorbing state, proved equal to the direct recursion (ChainSem.runChain_eq_runDirect) - and LogoutGen.logout_handler_refines proves that, for every answer of the environment (ParseForm / Form.Get / URL.Query, xml.DecodeLogoutRequest, GetServiceProvider, time.Now / Format / Parse, NewID as typed oracles), the regenerated handler writes exactly one LogoutResponse and it is Logout.logout on the input read off from the same answers; LogoutGen.sloSendBack_renders / _delivers do the same for the rendering of that one effect. Tie 2 (correspondence): the slo differential runs model and implementation on every generated logout request",
+    "environment contract of logout_handler_refines (EnvOK, StorageWF): a decoder / storage call that reports no error hands back a non-nil value, and registered service providers have an SPSSODescriptor (NewServiceProvider refuses others); checker.go itself stays a hand translation (Model.Checker, fingerprints + exhaustive chk correspondence, C20)",
+]
+
 PROPS = {
     "C15": {
         "modules": ["SamlModel.Props.C15"],
@@ -108,11 +113,11 @@ PROPS = {
         "assumptions": [],
     },
     "C13": {
-        "modules": ["SamlModel.Props.C13", "SamlModel.Props.Stateless"],
-        "translated": ["checkIfRequestTimeIsStillValid", "makeLogoutResponse", "getIssuer"],
-        "trusted_base": COMMON_TRUST + [
-            "makeLogoutResponse / getIssuer are translated and proved to refine Logout.mkMsg (C13_builder_refines)",
-            "Model.Logout is a hand-written model of logoutHandleFunc and the LogoutResponse builders: tied by theorem C13_source_current (regenerated chain skeleton = snapshot, fingerprints) and by the slo correspondence",
+        "modules": ["SamlModel.Props.C13", "SamlModel.Props.LogoutGen", "SamlModel.Props.LogoutProps", "SamlModel.Props.Stateless"],
+        "translated": ["checkIfRequestTimeIsStillValid", "makeLogoutResponse", "getIssuer", "IdentityProvider_logoutHandleFunc", "getLogoutRequestFromRequest",
+                       "LogoutResponse_makeFailedLogoutResponse", "LogoutResponse_makeSuccessfulLogoutResponse", "LogoutResponse_sendBackLogoutResponse"],
+        "trusted_base": COMMON_TRUST + SLO_TRUST + [
+            "makeLogoutResponse / getIssuer are translated and proved to refine Logout.mkMsg (C13_builder_refines); C13_generated_one_response / _success_iff / _delivery state the property on the regenerated handler",
             "XML decoding (DecodeLogoutRequest incl. base64/DEFLATE) and html/template rendering are oracles / covered by C17, C18",
         ],
         "assumptions": ["SpWF: registered metadata has an SPSSODescriptor (NewServiceProvider refuses metadata without one)"],
@@ -170,15 +175,15 @@ PROPS = {
         "assumptions": ["scheme comparison follows net/url (scheme is lower-cased by the parser; schemes are case-insensitive per RFC 3986)"],
     },
     "C02": {
-        "modules": ["SamlModel.Props.C02", "SamlModel.Props.HandlerGen", "SamlModel.Props.HandlerProps", "SamlModel.Props.SendBack", "SamlModel.Props.Stateless"],
-        "translated": ["GetAcsUrlAndBindingForResponse"],
-        "trusted_base": COMMON_TRUST + SSO_TRUST + CB_TRUST + [
+        "modules": ["SamlModel.Props.C02", "SamlModel.Props.HandlerGen", "SamlModel.Props.HandlerProps", "SamlModel.Props.SendBack", "SamlModel.Props.LogoutProps", "SamlModel.Props.Stateless"],
+        "translated": ["GetAcsUrlAndBindingForResponse", "IdentityProvider_logoutHandleFunc", "LogoutResponse_sendBackLogoutResponse"],
+        "trusted_base": COMMON_TRUST + SSO_TRUST + CB_TRUST + SLO_TRUST + [
             "the auto-submit form (action attribute) is covered byte-exactly by C17; the redirect URL assembly (two fingerprinted lines of sendBackResponse) is hand-modelled as redirectURL",
         ],
         "assumptions": ["callback: 'registered' is by composition with the SSO theorem - the stored pair is the pair the SSO endpoint persisted (C02_sso_persists_registered_pair); storage is trusted to return what was stored"],
     },
     "C10": {
-        "modules": ["SamlModel.Props.C10", "SamlModel.Props.HandlerGen", "SamlModel.Props.SendBack", "SamlModel.Props.Stateless"],
+        "modules": ["SamlModel.Props.C10", "SamlModel.Props.HandlerGen", "SamlModel.Props.SendBack", "SamlModel.Props.LogoutProps", "SamlModel.Props.Stateless"],
         "translated": ["getResponseCert"],
         "trusted_base": COMMON_TRUST + SSO_TRUST + CB_TRUST + [
             "Model.Metadata (metadata / certificate / readiness handlers), Model.Logout, Model.AttrQuery: hand models tied by fingerprints and their correspondences",
@@ -199,11 +204,11 @@ PROPS = {
                         "hunsigned (C11_want_signed_means_refused): the XML-DSig validator rejects a document without signature (goxmldsig; sampled)"],
     },
     "C09": {
-        "modules": ["SamlModel.Props.C09", "SamlModel.Props.HandlerGen", "SamlModel.Props.SendBack", "SamlModel.Props.Stateless"],
+        "modules": ["SamlModel.Props.C09", "SamlModel.Props.HandlerGen", "SamlModel.Props.SendBack", "SamlModel.Props.LogoutProps", "SamlModel.Props.Stateless"],
         "translated": ["certificateCheckNecessary", "checkCertificate", "equalCertificateText", "checkRequestRequiredContent", "verifyRequestDestinationOfAuthRequest",
                        "verifyRequestDestinationOfAttrQuery", "GetCertsFromKeyDescriptors", "getResponseCert", "GetAcsUrlAndBindingForResponse",
                        "signaturePostProvided", "signatureRedirectVerificationNecessary", "signaturePostVerificationNecessary", "verifyRedirectSignature", "verifyPostSignature"],
-        "trusted_base": COMMON_TRUST + SSO_TRUST + CB_TRUST + [
+        "trusted_base": COMMON_TRUST + SSO_TRUST + CB_TRUST + SLO_TRUST + [
             "go2lean's panic guards: every pointer dereference / nil-able selector of the translated Go code is emitted as an explicit `if <nil condition> then .panic`; the guard derivation itself is validated by the differential fn/handler ops (model and implementation must agree on panic vs. no panic)",
             "no theorem about panics inside encoding/xml, etree, goxmldsig, compress/flate, html/template, crypto: they are oracles in the model and are exercised by the structural-edit and byte-mutation generators",
         ],
